@@ -54,8 +54,8 @@ def overflows (q : Rat) : Bool := decide ((2 : Rat) ^ 1024 - (2 : Rat) ^ 970 ≤
 
 def inRange (q : Rat) : Option Rat := if overflows q then none else some q
 
-/-- the decimal subset of `strconv.ParseFloat`: sign, mantissa, optional exponent -/
-def parseFloat (cs : List Char) : Option Rat :=
+/-- the decimal subset of `strconv.ParseFloat`: sign, mantissa, optional exponent — the exact value written -/
+def parseFloatRaw (cs : List Char) : Option Rat :=
   let (neg, body) := match cs with
     | '-' :: r => (true, r)
     | '+' :: r => (false, r)
@@ -67,14 +67,17 @@ def parseFloat (cs : List Char) : Option Rat :=
   | some m =>
     let signed : Rat := if neg then -m else m
     match ex with
-    | [] => inRange signed
+    | [] => some signed
     | _ :: e =>
       let (eneg, ed) := match e with
         | '-' :: r => (true, r)
         | '+' :: r => (false, r)
         | r => (false, r)
       if ed.isEmpty || !ed.all isDig then none
-      else if eneg then inRange (signed / pow10 (natOf ed)) else inRange (signed * pow10 (natOf ed))
+      else if eneg then some (signed / pow10 (natOf ed)) else some (signed * pow10 (natOf ed))
+
+/-- `strconv.ParseFloat`: the value written, unless it is beyond the range of float64 (range error) -/
+def parseFloat (cs : List Char) : Option Rat := (parseFloatRaw cs).bind inRange
 
 /-- `(?:\d+(?:\.\d+)?|\.\d+)` -/
 def isDeltaSecs (cs : List Char) : Bool :=
